@@ -180,7 +180,15 @@ Fixpoint cflip_some (bs : list bool) (C : list cfact) : list cfact :=
   end.
 
 (* well-formedness of the address universe of a design (evaluated on every concrete design) *)
-Definition wf_design_addrs (D : design) : bool := wf_universe (s_addr dflt_sig :: map s_addr (filter (fun s => negb (is_const (s_kind s))) (d_sigs D))).
+Definition wf_design_addrs (D : design) : bool := wf_universe (s_addr dflt_sig :: map s_addr (d_sigs D)).
+
+(* the two situations in which the faithful model deviates from the bit-level decision *)
+Definition no_sameblk_sib_overlap (D : design) : bool :=
+  forallb (fun w1 => forallb (fun w2 =>
+    negb (Nat.eqb (w_blk w1) (w_blk w2) && sib_slices_rel (adr D (w_node w1)) (adr D (w_node w2)))) (d_wr D)) (d_wr D).
+Definition no_samenet_overlap (D : design) : bool :=
+  forallb (fun net => forallb (fun m => forallb (fun r =>
+    Nat.eqb r m || negb (ivl_rel (adr D m) (adr D r))) net) net) (components (edges D)).
 
 Definition defect_eqb (x y : option defect) : bool :=
   match x, y with
